@@ -42,7 +42,7 @@ pub fn compare(comps: &cteepbd::Components, fs: &str, k: f32, area: f32, lm: boo
                 match r.get(p) {
                     Some(y) => {
                         let ok = if p == "rer" {
-                            !ratios || (x - y).abs() <= 1e-4 * x.abs().max(1.0)
+                            !ratios || (x - y).abs() <= (1e-4 + 2.0 * t / (ep.balance.we.b.tot().abs() as f64).max(1e-30)) * x.abs().max(1.0)
                         } else {
                             (x - y).abs() <= ta + 2e-5 * x.abs().max(y.abs())
                         };
